@@ -40,6 +40,9 @@ func execOnce(tpl *pongo2.Template, ctx pongo2.Context) (r execRes) {
 // c04Focus: programs built around the constructs that keep state between
 // iterations, where a leak into the compiled template would show.
 var c04Focus = []string{
+	// list literals whose items depend on the context only through a filter parameter
+	"{% for x in [\"item-\"|add:s, \"end\"] %}{{ x }};{% endfor %}|{{ i in [1|add:i, 100] }}|{{ [[s|upper, 1], \"z\"|add:i] }}",
+	"{% with l=[\"a\"|add:s] %}{{ l.0 }}{% endwith %}{% set l2 = [i|add:i] %}{{ l2.0 }}",
 	"{% for i in l %}{% cycle 'a' 'b' 'c' %}{% endfor %}",
 	"{% for i in l %}{% cycle 'a' 'b' as c silent %}{{ c }}{% endfor %}|{% cycle 'x' 'y' %}",
 	"{% ifchanged %}{{ s }}{% endifchanged %}",
